@@ -751,6 +751,13 @@ impl Color {
         }
 
         let a = source.alpha + backdrop.alpha * (1.0 - source.alpha);
+
+        // Both colors are fully transparent: there is nothing to average (0 / 0). Keep the
+        // backdrop's channels instead of turning the result into (transparent) black.
+        if a == 0.0 {
+            return Color::from_rgba(backdrop.r, backdrop.g, backdrop.b, 0.0);
+        }
+
         let r = composite_channel(source.r, source.alpha, backdrop.r, backdrop.alpha, a);
         let g = composite_channel(source.g, source.alpha, backdrop.g, backdrop.alpha, a);
         let b = composite_channel(source.b, source.alpha, backdrop.b, backdrop.alpha, a);
